@@ -320,8 +320,12 @@ func (x *g) genHTTP(sv *spec.Service, m *spec.Method, idx int) {
 		switch {
 		case rt.Kind == spec.Object:
 			owned := p.Type.Kind == spec.Object
+			hasBasic, authHeaderUsed := false, false
 			for _, a := range rt.Attrs {
 				usedWire[strings.ToLower(a.Name)] = true
+				if a.Sec == "username" {
+					hasBasic = true
+				}
 			}
 			for _, a := range rt.Attrs {
 				at, _ := x.s.Resolve(a.Type)
@@ -338,29 +342,36 @@ func (x *g) genHTTP(sv *spec.Service, m *spec.Method, idx int) {
 					return spec.IsPrim(et.Kind) && et.Kind != spec.Any && et.Kind != spec.Bytes && at.Elem.Type.Kind != spec.Ref
 				}()
 				_ = isAliased
-				// security attributes: where they travel
+				// security attributes: where they travel. At most one credential may use the
+				// Authorization header (basic auth always does).
 				if a.Sec != "" {
 					switch {
 					case a.Sec == "username" || a.Sec == "password":
-						// implicit basic auth (no mapping) — body must not swallow them; goa handles
+						authHeaderUsed = true // implicit basic auth
 					case strings.HasPrefix(a.Sec, "apikey:"):
 						if x.chance(1, 2) {
 							h.Query = append(h.Query, spec.Loc{Attr: a.Name, Wire: wire(queryWire, a.Name)})
 							x.s.AddFeature("apikey-query")
 						} else {
-							h.Headers = append(h.Headers, spec.Loc{Attr: a.Name, Wire: x.r.Pick("X-API-Key", "Authorization", "")})
+							h.Headers = append(h.Headers, spec.Loc{Attr: a.Name, Wire: x.r.Pick("X-API-Key", "X-Key", "")})
 							x.s.AddFeature("apikey-header")
 						}
 					default:
-						switch x.r.Intn(3) {
+						c := x.r.Intn(3)
+						if hasBasic || authHeaderUsed {
+							c = 2
+						}
+						switch c {
 						case 0:
 							// implicit: Authorization header
+							authHeaderUsed = true
 							x.s.AddFeature("token-implicit")
 						case 1:
 							h.Headers = append(h.Headers, spec.Loc{Attr: a.Name, Wire: "Authorization"})
+							authHeaderUsed = true
 							x.s.AddFeature("token-authorization")
 						case 2:
-							h.Headers = append(h.Headers, spec.Loc{Attr: a.Name, Wire: "X-Token"})
+							h.Headers = append(h.Headers, spec.Loc{Attr: a.Name, Wire: "X-Token-" + a.Name})
 							x.s.AddFeature("token-custom-header")
 						}
 					}
